@@ -290,7 +290,15 @@ class _EnumerateElimInstance(DefaultTransformVisitor):
         if not all(is_access_path(a) for a in plan.args):
             return None
 
-        idx = self._index_name(idx_slot)
+        # The accessors `src[idx]` are substituted into the element, also inside
+        # inner comprehensions: a fresh counter cannot be captured by an inner
+        # binder that re-uses the user's index name, which becomes one more
+        # substituted (and therefore shadow-aware) name.
+        if isinstance(idx_slot, NamedId):
+            idx = self.gensym.refresh(idx_slot)
+            subst[idx_slot] = Var(idx, None)
+        else:
+            idx = self.gensym.fresh('_i')
         if plan.tupled:
             # A whole-element slot is a name or a discard, so no `fst`/`snd`
             # chain is involved and `comp_binding_is_pairs` has nothing to say.
